@@ -372,4 +372,102 @@ def c11(tier, repo=None):
                                          "data-race freedom itself is not a trace property: the thorough tier additionally runs the replay under the Go race detector"])
 
 
-CHECKS = {"C01": c01, "C02": c02, "C05": c05, "C06": c06, "C13": c13, "C11": c11}
+def c09(tier, repo=None):
+    """Graph level: one compiled runnable driven by N concurrent logical runs; every run must be, by the rule, the run it would
+    have been alone (own input term, own state, own checkpoint id).  Agent level (ReAct, host multi-agent): lib/checks_agents.py.
+    Data races: the same replays once more under the Go race detector."""
+    t0 = time.time()
+    prop = "C09"
+    rnd = random.Random(vlib.SEED * 104729 + 7)
+    log("[C09] tier=%s seed=%d repo=%s" % (tier, vlib.SEED, repo or vlib.REPO))
+    states, trans, model_runs = model_check(["MC_EinoRun_pregel2.cfg"], timeout=900)
+    quick = tier == "quick"
+    fams = [("cp2", consts("pregel", 2, 3, 1, 2, marks=1, rerun=True, maxchoice=(3,)), {}),
+            ("cd3", consts("dag", 3, 4, 1, 0, marks=1, rerun=True, multi=True), {}),
+            ("cw3", consts("wf", 3, 4, 0, 0, marks=1), {})]
+    scs = []
+    for name, c, kw in fams:
+        fam, run = engine.gen_family(name, c, **kw)
+        log("  family %s: %d scenarios" % (name, len(fam)))
+        scs += fam
+    rnd.shuffle(scs)
+    scs = scs[: 2500 if quick else 20000]
+    scs += nest(scs, rnd, 0.15, True)
+    engine.decorate(scs, seed=vlib.SEED, state_variants=True, noid_frac=0.05)
+    for sc in scs:
+        if rnd.random() < 0.4:          # not every scenario stateful
+            sc["state"] = bool(sc.get("rerun"))
+            sc["post"] = sc["hmod"] = False
+            sc.pop("smod", None)
+    callers = 4 if quick else 8
+    lines, wall_go, _ = engine.replay_concurrent(scs, callers=callers, repo=repo)
+    log("  %d scenarios x %d concurrent runs on ONE compiled runnable each: %d observation lines, %.0fs" % (len(scs), callers, len(lines), wall_go))
+    res = engine.validate(lines)
+    idx = engine.index_cases(lines)
+    bad = [b for b in res["bad"] if not str(b[2]).startswith("NOTE:")]
+    if any(str(b[2]).startswith("NOTE:") for b in res["bad"]):
+        raise Inconclusive("harness could not build some generated scenarios")
+    verdict = vlib.Verdict(prop)
+    by_id = {sc["id"]: sc for sc in scs}
+    # reproduce each rejected scenario (all its runs) once more
+    confirmed = []
+    if bad:
+        ids = sorted({cid.split("#")[0] for cid, _, _ in bad})[:200]
+        lines2, _, _ = engine.replay_concurrent([by_id[i] for i in ids], callers=callers, repo=repo)
+        res2 = engine.validate(lines2, nproc=4)
+        again = {(b[0].split("#")[0], b[2]) for b in res2["bad"]}
+        idx2 = engine.index_cases(lines2)
+        for cid, _, reason in bad:
+            if (cid.split("#")[0], reason) in again:
+                k = next((x for x in idx2 if x.split("#")[0] == cid.split("#")[0] and (x, reason) in {(b[0], b[2]) for b in res2["bad"]}), None)
+                confirmed.append((cid, reason, idx2[k][1] if k else idx[cid][1]))
+            else:
+                log("  note: rejection of %s (%s) did not reproduce: not counted" % (cid, reason))
+    seen = set()
+    for cid, reason, obs in confirmed:
+        if (cid.split("#")[0], reason) in seen:
+            continue
+        seen.add((cid.split("#")[0], reason))
+        verdict.violation("concurrent-run-differs:" + reason, {"scenario": by_id[cid.split("#")[0]], "callers": callers, "observations": obs}, reason)
+    # data races: a smaller replay under the race detector
+    nrace = 250 if quick else 2500
+    _, wall_race, out_race = engine.replay_concurrent(scs[:nrace], callers=callers, race=True, repo=repo, timeout=2400)
+    reps = engine.race_reports(out_race)
+    for r in reps[:5]:
+        verdict.violation("data-race:" + r["top_frame"], {"race_report": r}, r["file"])
+    log("  race detector pass over %d scenarios x %d runs: %d reports in eino code, %.0fs" % (min(nrace, len(scs)), callers, len(reps), wall_race))
+    agents = None
+    try:
+        import checks_agents
+        agents = checks_agents.agent_isolation(tier, repo=repo)
+    except ImportError:
+        log("  note: agent-level isolation (lib/checks_agents.py) not available in this tree")
+    if agents:
+        states += agents.get("states", 0)
+        trans += agents.get("transitions", 0)
+        for cid, reason in agents.get("bad", [])[:5]:
+            verdict.violation("agent-run-not-isolated:" + str(reason), {"agent_case": cid}, reason)
+        for r in agents.get("race_reports", [])[:5]:
+            verdict.violation("data-race:" + r["top_frame"], {"race_report": r}, r.get("file", ""))
+        log("  agents: %d calls validated, %d rejected, %d race reports" % (agents.get("cases", 0), len(agents.get("bad", [])), len(agents.get("race_reports", []))))
+    code, n_new, n_known = verdict.finish()
+    some = [idx[k] for k in vlib.sample(sorted(idx.keys()), 3)]
+    nontriv = len({nontrivial_signature(c, o) for c, o in idx.values() if len(o) > 3})
+    cov = {"states": states, "transitions": trans, "traces_validated_against_impl": len(idx) + (agents or {}).get("cases", 0),
+           "samples": [{"case": c, "observations": [json.loads(x) for x in o[1:10]]} for c, o in some] + (agents or {}).get("samples", [])[:2],
+           "evaluations": len(idx), "distinct_nontrivial": nontriv,
+           "rule": "scenarios enumerated by TLC (EinoGen) with state / interrupt / nesting variants; each compiled once and driven by %d concurrent logical runs "
+                   "(own initial term x<k>, own checkpoint id, own recorder carried in the context); every run's trace validated by TLC against RunObs; "
+                   "distinct = distinct (shape, marks, observation-kind sequence) with at least 3 observations" % callers,
+           "exhaustive": False, "callers": callers, "scenarios": len(scs), "race_pass_scenarios": min(nrace, len(scs)),
+           "race_reports_in_eino_code": len(reps), "agent_level": {k: v for k, v in (agents or {}).items() if k in ("cases", "lines", "states")},
+           "rejected_runs": len(bad), "confirmed": len(confirmed), "known_findings": n_known, "model_runs": model_runs}
+    vlib.write_evidence(prop, tier, "model_checking", cov, assumptions=[
+        "isolation is decided per run by the single-run rule (RunRule): a run that saw another run's value, state, option or checkpoint is rejected because its terms carry the tag of the run",
+        "data-race freedom is not a trace property: the same concurrent replays are executed under the Go race detector and a report with a frame in eino's non-test code counts as a violation; this part of the verdict does not come from the TLA+ specification",
+        "node bodies are the harness's term functions; callers per compiled object: %d" % callers], wall_s=time.time() - t0, violations=n_new)
+    log("[C09] %s: %d runs validated, %d rejected (%d confirmed), %d race reports, %.0fs" % ("VIOLATION" if code else "ok", len(idx), len(bad), len(confirmed), len(reps), time.time() - t0))
+    return code
+
+
+CHECKS = {"C09": c09, "C01": c01, "C02": c02, "C05": c05, "C06": c06, "C13": c13, "C11": c11}
